@@ -240,6 +240,14 @@ def run_case(ctx, n):
     conn = engine.connection(ledger=led.loaded)
     from ..core import stable_hash
     case = {'replay': ['case', n], 'ledger': led.text, 'digest': stable_hash(led.text)[:12]}
+    if rng.random() < 0.5:
+        # the first statements of the connection raise part-way through their scans (and are abandoned)
+        for failing in rng.sample(['SELECT date, splitcomp(account, ":", 2) AS c, balance', 'SELECT balance, date_add(date, 99999999 * (year - 2019)) AS x',
+                                   'SELECT type, date_add(date, 99999999 * (year - 2019)) AS x FROM #entries', 'SELECT account, str(number) ~ "(" AS m FROM year >= 2020'], 2):
+            try:
+                conn.execute(failing).fetchall()
+            except Exception:  # noqa: BLE001
+                ctx.count('obs.failed_first_statements')
     for _ in range(ctx.pick(3, 6)):
         check_balances(ctx, rng, conn, options, case)
         check_journal(ctx, rng, conn, case)
@@ -397,7 +405,7 @@ def replay(ctx, case):
 def finalize(merged):
     c = merged['counters']
     reasons = []
-    for k in ('obs.print_through_shell', 'obs.balances_cases', 'obs.journal_cases', 'obs.print_cases', 'obs.print_full_reloads', 'obs.print_clause_cases'):
+    for k in ('obs.print_through_shell', 'obs.balances_cases', 'obs.journal_cases', 'obs.print_cases', 'obs.print_full_reloads', 'obs.print_clause_cases', 'obs.period_reference_cases', 'obs.failed_first_statements'):
         if c.get(k, 0) == 0:
             reasons.append(f'{k} == 0')
     types = merged['sets'].get('printed_directive_types', set())
